@@ -54,6 +54,8 @@ def nontrivial(engine, opline):
         return bool(t) and t[0] == 'vsubmit'
     if engine == 'ante':
         return bool(t) and t[0] == 'ante'
+    if engine == 'genfuncs':
+        return bool(t) and t[0] in ('tik', 'gm')
     if engine == 'statedb':
         return bool(t) and not t[0].startswith('w.') and t[0] != 'new'
     return True
@@ -92,6 +94,7 @@ PROPS = {
         theorems=['tie_effective_gas_price', 'tie_effective_fee', 'tie_refund_gas', 'tie_refund_is_model', 'tie_gas_used', 'tie_buy_gas', 'tie_intrinsic_gas', 'tie_intrinsic_ge_txgas', 'tie_reset_reads_gas_used', 'tie_reset_effects', 'tie_consume_gas', 'tie_refund_gas_meter', 'tie_add_overflow', 'tie_evm_base_fee', 'fact_translated_all', 'C05_charge', 'C05_charge_self', 'C05_rejected_free', 'C05_refund_cap', 'C05_bounds', 'C05_result_eq_receipt',
                   'C05_collector_gain', 'C05_one_price', 'stepEth_cases', 'fact_refund_quotient', 'fact_min_gas', 'fact_gas_meter_reset', 'fact_one_base_fee'],
         engines=[dict(name='block', test='TestEngineBlock', quick=500, thorough=6000, thorough_seeds=3),
+                 dict(name='genfuncs', test='TestEngineGenfuncs', quick=2000, thorough=100000, thorough_seeds=2, no_model=True),   # the translated gas meter run against the real one (translator-vs-implementation)
                  dict(name='indexer', test='TestEngineIndexer', quick=40, thorough=600, thorough_seeds=2, no_model=True, own_oracles_only=True)],   # oracle C05-receipt-gas-of-tx-failed-outside-evm only: the Ethereum receipt (JSON-RPC) of a transaction that failed outside the EVM shows the gas limit its sender paid for
         rule=BLOCK_RULE, assumptions=BLOCK_ASSUME + ['C05_bounds lower bound assumes intrinsic + refundCounter <= gas used before refund (geth gas table: every refunded unit was paid for); E-block checks intrinsic <= gasUsed on every committed tx'],
     ),
@@ -343,7 +346,8 @@ PROPS['C14'] = dict(
     theorems=['tie_tx_index_key', 'tie_tx_index_key_injective', 'tie_parse_block_number_roundtrip', 'tie_parse_block_number_refuses', 'beToU64_u64ToBe', 'fact_translated_all', 'C14_filter_topics', 'topicLoop_spec', 'fact_filterlogs_guards', 'C14_lookup_by_hash', 'C14_lookup_by_index', 'C14_index_eq_consensus', 'C14_reindex_idempotent', 'C14_restart_skips_fails',
               'C14_restart_partial', 'C14_restart_resumes', 'indexFrom_get', 'indexFrom_get_other', 'cntBefore_eq_consensus', 'C13_txIndex', 'C13_logIndex',
               'C13_cumulativeGas', 'fact_one_batch_per_block', 'fact_restart_rule', 'fact_log_index_restored'],
-    engines=[dict(name='indexer', test='TestEngineIndexer', quick=40, thorough=1200, thorough_seeds=2),
+    engines=[dict(name='genfuncs', test='TestEngineGenfuncs', quick=2000, thorough=100000, thorough_seeds=2, no_model=True),
+             dict(name='indexer', test='TestEngineIndexer', quick=40, thorough=1200, thorough_seeds=2),
              dict(name='indexersvc', test='TestEngineIndexerService', quick=1, thorough=6, thorough_seeds=1, no_model=True),
              dict(name='logfilter', test='TestEngineLogfilter', quick=2000, thorough=100000, thorough_seeds=2)],
     rule='E-indexer: multi-transaction blocks of every outcome class (20 tx kinds of E-block, heavy blocks, undecodable bytes inserted at random positions) from the real FinalizeBlock are indexed by the real KVIndexer; every Ethereum hash of the block, an older hash, an unknown hash, every (block, index) up to two past the end and of neighbouring heights are looked up; one block in five is first indexed with an injected failure of the batch write, every block is indexed twice; the real JSON-RPC backend over the recorded blocks must report sender, status, gas used, cumulative gas, log indices and transaction index of the consensus results. E-indexersvc: the real EVMIndexerService is stopped before it hears of a block with Ethereum transactions and restarted on the same database (non-empty and empty). non-trivial = every block line; distinct by op-line hash',
